@@ -147,6 +147,20 @@ def space(tier):
             if same and pos in ("2:sum", "2:arg", "2:nested-arg"):
                 continue  # unsequenced modification and access of one object: undefined in C
             out.append(mk(st, (x, y, pos)))
+    # "only when selected" with a condition the compiler folds: the arm that is not selected must not take effect
+    # (the other arm has the type of the operation: the conversion of the arms of a folded ?: is C09's subject)
+    for name, e in OPS.items():
+        three, var = ("3U", "(uint32_t)v") if name in ("call", "callw") else ("3", "v")
+        for k in ("1", "0", "(1 < 2)"):
+            for pos, st in [("dead-or-live-then", "r = %s ? %s : %s;" % (k, e, three)), ("dead-or-live-else", "r = %s ? %s : %s;" % (k, three, e)), ("other-arm-var", "r = %s ? %s : %s;" % (k, var, e)),
+                            ("other-arm-var2", "r = %s ? %s : %s;" % (k, e, var)), ("in-sum", "r = (%s ? %s : %s) + %s;" % (k, three, e, var)), ("if-const", "if (%s) { r = %s; } else { s = %s; }" % (k, e, e))]:
+                out.append(mk(st, (name, "const-cond", k, pos)))
+    for x, y in pairs:
+        if conflicts(OPS[x], OPS[y]) or (x in ("call", "callw")) != (y in ("call", "callw")):
+            continue
+        for k in ("1", "0"):
+            out.append(mk("r = %s ? %s : %s;" % (k, OPS[x], OPS[y]), (x, y, "const-cond-2", k)))
+            out.append(mk("r = (%s ? 3 : %s) + %s;" % (k, OPS[x], OPS[y]), (x, y, "const-cond-sum", k)))
     if tier == "thorough":
         for x, y, z in itertools.product(["inc", "call", "gcc"], ["incw", "callw", "gccw"], ["inc", "dec", "call"]):
             out.append(mk("r = %s; s = %s; r += %s;" % (OPS[x], OPS[y], OPS[z]), (x, y, z, "3:seq")))
